@@ -139,6 +139,7 @@ unsigned lookup_component(const Components& compon, const f8String& name);
 void binary_report();
 string bintoaschex(const string& from);
 uint32_t group_hash(const MessageSpec& p1);
+bool same_group(const MessageSpec& p1, const MessageSpec& p2);
 const MessageSpec *find_group(const CommonGroupMap& globmap, int& vers, unsigned tp, uint32_t key);
 void generate_group_traits(const FieldSpecMap& fspec, const MessageSpec& ms, const string& gname, const string& prefix, ostream& outp);
 void generate_export( ostream& to, const string& ns );
@@ -670,7 +671,10 @@ unsigned parse_groups(MessageSpec& ritr, const string& name,
                   CommonGroupMap::iterator cgitr(globmap.find(fs_itr->first));
                   if (cgitr == globmap.end())
                      cgitr = globmap.insert(make_pair(fs_itr->first, CommonGroups())).first;
-                  const uint32_t hv(group_hash(gresult.first->second));
+                  uint32_t hv(group_hash(gresult.first->second));
+                  // the hash only narrows the search: a different definition that hashes alike gets the next free key
+                  for (CommonGroups::const_iterator hitr; (hitr = cgitr->second.find(hv)) != cgitr->second.end()
+                     && !same_group(hitr->second, gresult.first->second); ++hv);
                   gresult.first->second._hash = hv;
                   cgitr->second.insert(make_pair(hv, gresult.first->second));
                   CommonGroups::iterator cghitr(cgitr->second.find(hv));
@@ -1552,6 +1556,23 @@ uint32_t group_hash(const MessageSpec& p1)
       result = rothash(result, group_hash(pp.second));
 
    return result;
+}
+
+//-------------------------------------------------------------------------------------------------
+bool same_group(const MessageSpec& p1, const MessageSpec& p2)
+{
+   // same members (number, position, mandatory) and the same nested groups (these are registered already)
+   const Presence& f1(p1._fields.get_presence()), &f2(p2._fields.get_presence());
+   if (f1.size() != f2.size() || p1._groups.size() != p2._groups.size())
+      return false;
+   for (Presence::const_iterator i1(f1.begin()), i2(f2.begin()); i1 != f1.end(); ++i1, ++i2)
+      if (i1->_fnum != i2->_fnum || i1->_pos != i2->_pos
+         || i1->_field_traits.has(FieldTrait::mandatory) != i2->_field_traits.has(FieldTrait::mandatory))
+            return false;
+   for (GroupMap::const_iterator g1(p1._groups.begin()), g2(p2._groups.begin()); g1 != p1._groups.end(); ++g1, ++g2)
+      if (g1->first != g2->first || g1->second._hash != g2->second._hash)
+         return false;
+   return true;
 }
 
 //-------------------------------------------------------------------------------------------------
